@@ -39,7 +39,7 @@ where
             root,
             method: Method::Empty,
             order: Ordering::Post,
-            transpose: Transposition::Inbound,
+            transpose: Transposition::Outbound,
         }
     }
 
